@@ -20,7 +20,7 @@ Definition option_flow : list (string * bool) :=
   [ ("run: the option map is extracted unconditionally by runner.extractOption from the call's own options"%string, true);
     ("run: there is no other extraction"%string, true);
     ("run: neither the option map nor the option list is assigned again"%string, true);
-    ("run: every restoreTasks / calculateNextTasks is handed the option map"%string, true);
+    ("run: every restoreTasks / calculateNextTasks whose tasks are submitted is handed the option map"%string, true);
     ("calculateNextTasks: createTasks is handed the option map"%string, true);
     ("calculateNextTasks / createTasks / restoreTasks only read the option map"%string, true);
     ("run: the task manager is given the call's option list"%string, true);
